@@ -12,7 +12,7 @@ from vlib.probe import LibError
 ACTIONX_WELL_EVENT = 1 << 20
 
 BODY = ["welopen", "wconprod", "wconinje", "weltarg", "wefac", "gconprod", "gconinje", "wgrupcon", "wtest", "wecon", "nextstep",
-        "gruptree", "wlist", "udq"]
+        "gruptree", "wlist", "udq", "actionextra"]
 KINDS = ["actionx", "actionx", "welspecs", "compdat", "wconprod", "wconinje", "wconhist", "welopen", "weltarg", "wefac", "gefac",
          "gruptree", "gconprod", "gconinje", "wgrupcon", "wlist", "wtest", "wecon", "misc", "udq", "wellextra", "groupextra"]
 
